@@ -2,8 +2,9 @@
    harness observed on the real Listen/Accept/Close code, plus a deterministic replay of every
    Read/Write trace through lb_read.  Evaluated with vm_compute by ./check C19.
 
-   The steps of the per-session accept goroutine (Wrap, Enqueue, Lose, AcceptErr) are not observable
-   from outside; the acceptor therefore tracks the SET of model states reachable by any number of
+   The steps of the per-session accept goroutine (Wrap, Enqueue, Lose, PostCheck, GDrain, AcceptErr),
+   the adapter's own Closes of conns it took aside (CloseTaken) and the individual steps of a
+   listener.Close call (LStep) are not observable from outside; the acceptor therefore tracks the SET of model states reachable by any number of
    such internal steps after each observed event (so a lagging implementation is still accepted),
    and an observed event must be enabled in at least one state of the set. *)
 From Coq Require Import List ZArith Bool Arith.
@@ -24,17 +25,21 @@ Inductive obs :=
 Definition bz (b : bool) : Z := if b then 1 else 0.
 Definition nz (n : nat) : Z := Z.of_nat n.
 Definition loop_key (p : loop_pc) : list Z :=
-  match p with LAccepting => [0] | LSelecting w => [1; nz w] | LExited => [2] end.
+  match p with LAccepting => [0] | LSelecting w => [1; nz w] | LExited => [2] | LPostEnq => [3] | LDraining => [4] end.
+Definition cl_key (c : close_pc) : Z :=
+  match c with CStart => 0 | CSig => 1 | CDrain => 2 | CRel => 3 | CDone => 4 end.
 Definition sess_key (x : sess) : list Z :=
   [refs x; bz (in_map x); bz (registered x); bz (sclosed x); bz (wg_zero x); nz (inq x)] ++ loop_key (loop x).
 Definition wr_key (x : wrapper) : list Z := [nz (w_sess x); nz (w_ord x); bz (w_closed x)].
 Definition key (st : state) : list Z :=
-  [nz (nsess st); nz (nwr st); bz (lmark st); bz (closeCh st); bz (lreleased st); bz (panic st)]
+  [nz (nsess st); nz (nwr st); nz (ncl st); bz (lmark st); bz (closeCh st); bz (lreleased st); bz (panic st)]
+  ++ map (fun k => cl_key (cl_of st k)) (seq 0 (ncl st))
   ++ flat_map (fun s => sess_key (sess_of st s)) (seq 0 (nsess st))
   ++ flat_map (fun w => wr_key (wr st w)) (seq 0 (nwr st))
   ++ (nz (length (backlog st)) :: map nz (backlog st))
   ++ (nz (length (delivered st)) :: map nz (delivered st))
-  ++ map nz (lost st).
+  ++ (nz (length (closing st)) :: map nz (closing st))
+  ++ map nz (aclosed st).
 
 Fixpoint zlist_eqb (a b : list Z) : bool :=
   match a, b with
@@ -55,10 +60,18 @@ Fixpoint add_new (xs : list state) (acc : list state) (ks : list (list Z)) (fres
               else add_new r (acc ++ [x]) (k :: ks) (x :: fresh)
   end.
 
+(* Partial-order reduction: the adapter's Close of a conn it took aside (CloseTaken) commutes with every
+   other step and no observation other than the final one (made at quiescence) depends on it; it only
+   ever enables more (a counter reaching zero).  The acceptor therefore performs it eagerly, which
+   keeps the tracked state set small (no 2^n subsets of pending Closes). *)
+Definition flush_closing (st : state) : state :=
+  fold_left (fun a w => if enabled a (CloseTaken w) then step a (CloseTaken w) else a) (closing st) st.
+
 Definition internal_events (st : state) : list event :=
-  flat_map (fun s => [Wrap s; Enqueue s; Lose s; AcceptErr s]) (seq 0 (nsess st)).
+  flat_map (fun s => [Wrap s; Enqueue s; Lose s; PostCheck s; GDrain s; AcceptErr s]) (seq 0 (nsess st))
+  ++ map LStep (seq 0 (ncl st)).
 Definition succs (st : state) : list state :=
-  map (step st) (filter (enabled st) (internal_events st)).
+  map (fun e => flush_closing (step st e)) (filter (enabled st) (internal_events st)).
 Definition settled (st : state) : bool :=
   match filter (enabled st) (internal_events st) with [] => true | _ => false end.
 
@@ -82,7 +95,7 @@ Fixpoint find_w (st : state) (s k : nat) (ws : list nat) : option nat :=
   | w :: r => if Nat.eqb (w_sess (wr st w)) s && Nat.eqb (w_ord (wr st w)) k then Some w else find_w st s k r
   end.
 
-Definition fire (st : state) (e : event) : list state := if enabled st e then [step st e] else [].
+Definition fire (st : state) (e : event) : list state := if enabled st e then [flush_closing (step st e)] else [].
 
 Definition apply_obs (st : state) (o : obs) : list state :=
   match o with
@@ -96,18 +109,19 @@ Definition apply_obs (st : state) (o : obs) : list state :=
   | OAcceptErr => fire st AcceptFail
   | OClose s k => match find_w st s k (delivered st) with Some w => fire st (WClose w) | None => [] end
   | ODie s => fire st (SessionDie s)
-  | OLClose => []   (* handled in obs_step: three steps with internal steps in between *)
+  | OLClose => fire st LCall   (* its steps are internal; the call has RETURNED: see obs_step *)
   | OFinal flags =>
     if settled st && zlist_eqb (map bz flags) (map (fun s => bz (sclosed (sess_of st s))) (seq 0 (nsess st)))
     then [st] else []
   end.
 
+Definition closers_done (st : state) : bool :=
+  forallb (fun k => is_cdone (cl_of st k)) (seq 0 (ncl st)).
+
+(* the harness issues listener.Close calls one after the other and records them on return *)
 Definition obs_step (sts : list state) (o : obs) : list state :=
   match o with
-  | OLClose =>
-    let a := close_set (flat_map (fun st => fire st LMark) sts) in
-    let b := close_set (flat_map (fun st => if enabled st LSignal then [step st LSignal] else [st]) a) in
-    close_set (flat_map (fun st => fire st LRelease) b)
+  | OLClose => filter closers_done (close_set (flat_map (fun st => apply_obs st o) sts))
   | _ => close_set (flat_map (fun st => apply_obs st o) sts)
   end.
 
@@ -181,8 +195,15 @@ Fixpoint mismatches_from (n : nat) (cs : list ncase) : list (nat * Z * nat * nat
   end.
 Definition mismatches := mismatches_from 0.
 
-(* self-test: the refuting history is accepted, with the pinned session observed open *)
+(* self-test: the history that used to pin the session is accepted only with the session closed *)
+Definition selftest_neg : bool :=
+  match mismatches [ {| n_cap := 1; n_obs := [OConnect; OOpen 0; OLClose; OFinal [false]]; n_pipes := [] |} ] with
+  | [(_, 1, 3%nat, _)] => true    (* the pinned outcome must be REJECTED at the final observation *)
+  | _ => false
+  end.
+
 Definition selftest : list (nat * Z * nat * nat) :=
+  (if selftest_neg then [] else [(99%nat, 9, O, O)]) ++
   mismatches [ {| n_cap := 1;
-                  n_obs := [OConnect; OOpen 0; OLClose; OAcceptErr; OFinal [false]];
+                  n_obs := [OConnect; OOpen 0; OLClose; OAcceptErr; OFinal [true]];
                   n_pipes := [[IOW [1; 2; 3]; IOR 2 0 [1; 2]; IOR 0 0 []; IOR 5 0 [3]; IOR 4 1 []; IOPeerClose; IOR 1 2 []]] |} ].
